@@ -183,6 +183,9 @@ func (l *LLC) SerializeTo(b gopacket.SerializeBuffer, opts gopacket.SerializeOpt
 // SerializationBuffer, implementing gopacket.SerializableLayer.
 // See the docs for gopacket.SerializableLayer for more info.
 func (s *SNAP) SerializeTo(b gopacket.SerializeBuffer, opts gopacket.SerializeOptions) error {
+	if len(s.OrganizationalCode) < 3 {
+		return errors.New("SNAP OrganizationalCode must be 3 bytes")
+	}
 	if buf, err := b.PrependBytes(5); err != nil {
 		return err
 	} else {
